@@ -53,6 +53,31 @@ def gen_case(R, rng):
     return ("random", atoms, mass, fl, cd, fr, t, gen_rest_list(rng), gen_rest_list(rng), x)
 
 
+def same_daughter_cases(R, rng, n):
+    """samples holding two parents that produce the same daughter nuclide (by different reactions, possibly with
+    differently tabulated half-lives), in both orders: each row still decays with its own half-life"""
+    by = {}
+    for i, r in enumerate(R.trows):
+        by.setdefault(r["daughter"], []).append(i)
+    pairs = []
+    for d, rows in sorted(by.items()):
+        zs = sorted({R.trows[i]["z"] for i in rows})
+        halves = sorted(AC.dec_float(R.trows[i]["Thalf_hrs"]) for i in rows)
+        spread = halves[-1] / halves[0] if halves[0] > 0 else 1.0
+        for j, z1 in enumerate(zs):
+            for z2 in zs[j + 1:]:
+                pairs.append((spread, z1, z2))
+    pairs.sort(key=lambda p: (-p[0], p[1], p[2]))        # most different half-lives first
+    out = []
+    for diff, z1, z2 in pairs[:n]:
+        for a, b in ((z1, z2), (z2, z1)):
+            atoms = [(1, (a, 0, 0)), (rng.choice([1, 2, 0.5]), (b, 0, 0))]
+            for x in (0.5, 1e-2, 1e-4, 1e-6, 1e-8):
+                out.append(("same-daughter", atoms, 1.0, 1e8, 0.0, 0.0, 10.0, [0.0, 24.0], [5.0], x))
+            out.append(("same-daughter", atoms, 1.0, 1e9, 20.0, 50.0, 5.0, [0.0, 24.0], [5.0], rng.choice([1e-2, 1e-5])))
+    return out
+
+
 def corpus():
     co = [(30, (27, 0, 0)), (70, (26, 0, 0))]
     h2o = [(2, (1, 0, 0)), (1, (8, 0, 0))]
@@ -139,6 +164,20 @@ def check_cases(run: Run, R, cases, activation):
         except Exception as e:  # noqa   (C14's business; recorded there too)
             run.count(key=repr(case), nontrivial=False, tag="stream:activation-failed")
             continue
+        if stream == "same-daughter":
+            # reference activities row by row from activity() on each isotope alone (independent of how
+            # the Sample keys and accumulates its products)
+            exp = {}
+            for frac, isos in parts_of(s0, activation):
+                for z, a, share in isos:
+                    m = mass * frac if share is None else mass * frac * share * 0.01
+                    if share is not None and not m:
+                        continue
+                    r = C14.py_activity(R, activation, z, a, m, fl, cd, fr, t, [0.0])
+                    if r[0] == "ok":
+                        for i_, v in r[1].items():
+                            exp[i_] = exp.get(i_, 0.0) + v[0]
+            a0 = sorted(exp.items())
         if any(v < 0 for _, v in a0):
             # a negative product activity is C14's failure (known finding D12b: '2n' rows); "the summed
             # activity of all products" is then not a meaningful reference for decay_time
@@ -161,6 +200,17 @@ def check_cases(run: Run, R, cases, activation):
         if r1b[0] != r1[0] or (r1[0] == "ok" and not same_time(r1b[1], r1[1])):
             run.violation("decay_time of a sample changed after another sample was activated: %r then %r" % (r1, r1b),
                           dict(inp, target=target), clause="independent-of-other-samples")
+        # the identical activation computed again (twice) for a new Sample: the same answer
+        try:
+            for _rep in range(2):
+                r1c = decay(calc(activation, formula, atoms, mass, fl, cd, fr, t, rests), target)
+                if r1c[0] != r1[0] or (r1[0] == "ok" and not same_time(r1c[1], r1[1])):
+                    run.violation("decay_time after computing the identical activation once more is %r, the first time %r"
+                                  % (r1c, r1), dict(inp, target=target), clause="independent-of-earlier-activations")
+                    break
+        except Exception as e:  # noqa
+            run.violation("computing the identical activation once more raised %s: %s" % (type(e).__name__, e),
+                          dict(inp, target=target), clause="independent-of-earlier-activations")
         # a history of questions on one sample: a high target first, then lower ones down to the level
         # of the weakest product – each answer is the one a fresh sample gives
         try:
@@ -279,7 +329,8 @@ def run(run: Run) -> int:
     run.prove(generated=["ActivationDat", "Constants"])
     R = AC.Rows()
     n = 1200 if run.tier == "quick" else 50000
-    cases = corpus() + [gen_case(R, run.rng) for _ in range(n)]
+    cases = corpus() + same_daughter_cases(R, run.rng, 16 if run.tier == "quick" else 200) + \
+        [gen_case(R, run.rng) for _ in range(n)]
     for i in range(0, len(cases), 5000):
         check_cases(run, R, cases[i:i + 5000], activation)
     return run.finish(RULE, assumptions=[
